@@ -813,30 +813,25 @@ __yd_diff(dt_yd_t d1, dt_yd_t d2)
 
 	/* first compute the difference in years */
 	tgty = (d2.y - d1.y);
-	/* ... and days */
-	tgtd = (d2.d - d1.d);
-	/* add leap corrections, this is actually a matrix
-	 * ({L,N}x{B,A})^2, Leap/Non-leap, Before/After leap day */
-	if (UNLIKELY(__leapp(d1.y)) && LIKELY(d1.d >= 60)) {
-		/* LA?? */
-		if (UNLIKELY(d1.d == 60)) {
-			/* corner case, treat 29 Feb as 01 Mar */
-			;
-		} else if (!__leapp(d2.y)) {
-			/* LAN? */
-			tgtd++;
-		} else if (d2.d < 60) {
-			/* LALB */
-			tgtd++;
+	/* ... and days, counted from D1's month and day in the year of D2
+	 * (a 29 Feb becomes 01 Mar there), that's the date TGTY years
+	 * after D1 */
+	with (struct __md_s md = __yday_get_md(d1.y, d1.d)) {
+		unsigned int y = d2.y;
+		unsigned int a = md.m == 2U && md.d == 29U && !__leapp(y)
+			? __md_get_yday(y, 3U, 1U)
+			: __md_get_yday(y, md.m, md.d);
+
+		if (a > d2.d) {
+			/* not a full year that one, go back one */
+			tgty--, y--;
+			a = md.m == 2U && md.d == 29U && !__leapp(y)
+				? __md_get_yday(y, 3U, 1U)
+				: __md_get_yday(y, md.m, md.d);
+			tgtd = __get_ydays(y) - a + d2.d;
+		} else {
+			tgtd = d2.d - a;
 		}
-	} else if (d1.d >= 60 && UNLIKELY(__leapp(d2.y)) && d2.d >= 60) {
-		/* NALA */
-		tgtd--;
-	}
-	/* add carry */
-	if (tgtd < 0) {
-		tgty--;
-		tgtd += 365 + ((__leapp(d2.y)) && d2.d >= 60);
 	}
 
 	/* fill in the results */
